@@ -516,6 +516,18 @@ func (v *AttVerdict) receiptsElem(method string, res any, asked uint64, askedKno
 		v.must(method, "undecodable")
 		return
 	}
+	if len(arr) == 0 && askedKnown {
+		// no receipt at all for a block the same response set shows with transactions: the backend has not got
+		// them yet (or lost them); taking it for "nothing happened" stores zero status, gas and contract address
+		if b := v.block(asked); b != nil && b.FullTxs {
+			for _, t := range b.Txs {
+				if t.Body != nil {
+					v.must(method, "empty-result-for-block-with-transactions")
+					break
+				}
+			}
+		}
+	}
 	var firstBlock *AttBlock
 	for xi, x := range arr {
 		it, ok := x.(map[string]any)
